@@ -316,6 +316,40 @@ static void extremal(struct res *r) {
     res_sample(r, "%d exact extremal phrases over 10 languages x {composed, decomposed}", found_total);
 }
 
+/* part h: what an object wrote before does not matter.  encode, then the password operation in place under every mask of a 2^16 family
+ * (mask bytes 0 and 1 swept, i.e. data words 1-2), then encode again: the second phrase is the reference phrase of the model's
+ * new seed.  About one mask in 2048 leaves the check value (word 1) as it was while the secret changed - the case in which anything
+ * remembered from the first encode and keyed by (object, check value) would be stale; the count of those masks is reported. */
+static const char *CLS_H[] = { "check_value_changed_by_the_password_operation", "check_value_unchanged_while_the_seed_changed", NULL };
+static int hist_one(long x, struct res *r) {
+    char rep[64]; snprintf(rep, sizeof rep, "hist %ld", x);
+    extern char *G_cur; if (G_cur) strcpy(G_cur, rep);
+    int v = (int)(x >> 16) & 1, li = (int)((x >> 3) % R_NLANG); unsigned coin = (unsigned)(x >> 5) & 2047u;
+    rseed m; memset(&m, 0, sizeof m); for (int i = 0; i < 19; i++) m.secret[i] = (uint8_t)(0xA7 + 29 * i + v); m.secret[18] &= 0x3F; m.birthday = 300 + (unsigned)v; m.features = v ? (16u | 2u) : 5u;
+    polyseed_enable_features(7); r->cases++;
+    uint8_t st[32], km[32]; ref_storage(&m, st); polyseed_data *s = NULL;
+    if (polyseed_load(st, &s) != POLYSEED_OK) { res_viol(r, "c03:history:load", rep, "load of the reference serialisation failed"); ledger_drop_all(); return 1; }
+    const polyseed_lang *lang = polyseed_get_lang(li);
+    polyseed_str p0, p1; char ref0[2048], ref1[2048];
+    size_t n0 = polyseed_encode(s, lang, (polyseed_coin)coin, p0), r0 = ref_phrase(&m, li, coin, ref0, 0);
+    unsigned cv0 = ref_check_value(&m);
+    memcpy(km, E.mask, 32); for (int i = 2; i < 32; i++) E.mask[i] = (uint8_t)(0x3D + 11 * i); E.mask[0] = (uint8_t)x; E.mask[1] = (uint8_t)(x >> 8);
+    polyseed_crypt(s, "pw"); ref_crypt(&m, E.mask); memcpy(E.mask, km, 32);
+    size_t n1 = polyseed_encode(s, lang, (polyseed_coin)coin, p1), r1 = ref_phrase(&m, li, coin, ref1, 0);
+    uint8_t st1[32], ex1[32]; polyseed_store(s, st1); ref_storage(&m, ex1); polyseed_free(s); r->calls += 6;
+    int same_cv = ref_check_value(&m) == cv0;
+    if (n0 != r0 || memcmp(p0, ref0, r0 + 1)) { res_viol(r, "c03:history:first", rep, "first phrase differs from the reference phrase"); ledger_drop_all(); return 1; }
+    if (memcmp(st1, ex1, 32)) { res_viol(r, "c03:history:store", rep, "after the password operation the object serialises differently from the model seed"); ledger_drop_all(); return 1; }
+    if (n1 != r1 || memcmp(p1, ref1, r1 + 1)) { res_viol(r, "c03:history:second", rep, "an object that was encoded, then changed in place by the password operation (check value %s), writes \"%.100s\" instead of the reference phrase \"%.100s\" of its new content%s", same_cv ? "unchanged" : "changed", p1, ref1, (n1 == n0 && !memcmp(p1, p0, n0)) ? " - it repeats the phrase written before the change" : ""); ledger_drop_all(); return 1; }
+    if (ledger_live()) { res_viol(r, "c03:history:leak", rep, "blocks left allocated"); ledger_drop_all(); return 1; }
+    r->cls[same_cv ? 1 : 0]++; r->validated++; r->digest ^= mix64((uint64_t)x, n1);
+    return 0;
+}
+static void work_h(long lo, long hi, struct res *r, void *arg) {
+    (void)arg;
+    for (long x = lo; x < hi; x++) { if (past_deadline()) { r->timed_out = 1; return; } hist_one(x, r); }
+}
+
 int main(int argc, char **argv) {
     int a = common_args(argc, argv);
     ref_init(VERIF_ROOT); sec_mark_initial(); env_init(); inject(0);
@@ -331,7 +365,14 @@ int main(int argc, char **argv) {
         for (int i = 0; i < r->nviol; i++) printf("REPRODUCED %s: %s\n", r->v[i].key, r->v[i].msg);
         return bad ? 1 : 0;
     }
-    if (a >= argc) { fprintf(stderr, "usage: e2_phrase [opts] c01|c03 | case ...\n"); return 2; }
+    if (a < argc && !strcmp(argv[a], "hist")) {
+        if (argc - a < 2) { fprintf(stderr, "usage\n"); return 2; }
+        ORACLE = 3; struct res *r = calloc(1, sizeof *r);
+        int bad = hist_one(atol(argv[a + 1]), r);
+        for (int i = 0; i < r->nviol; i++) printf("REPRODUCED %s: %s\n", r->v[i].key, r->v[i].msg);
+        return bad ? 1 : 0;
+    }
+    if (a >= argc) { fprintf(stderr, "usage: e2_phrase [opts] c01|c03 | case ... | hist <n>\n"); return 2; }
     ORACLE = !strcmp(argv[a], "c01") ? 1 : 3;
     if (NL != R_NLANG) { printf("{\"parts\":[],\"fatal\":\"language registry has %d entries, expected %d\"}\n", NL, R_NLANG); return 0; }
     make_backgrounds();
@@ -349,6 +390,8 @@ int main(int argc, char **argv) {
     out_part("e:created-and-crypted-seeds", r, CLS, "seeds obtained through create/crypt with PRNG tapes (additional, not a decision factor)");
     if (G_thorough) { memset(r, 0, sizeof *r); par_run(14L * 2048 * 2048, work_f, NULL, r); out_part("f:all value pairs of adjacent data words", r, CLS, "14 word pairs x 2048 x 2048, languages rotating with the position"); }
     memset(r, 0, sizeof *r); extremal(r); out_part("g:exact extremal phrases (longest word in all 16 positions)", r, CLS, "the phrases that reach the computed maximum length to the byte");
+    if (ORACLE == 3) { memset(r, 0, sizeof *r); par_run(2L * 65536, work_h, NULL, r);
+        out_part("h:encode, password operation under every mask of a 2^16 family, encode again", r, CLS_H, "2 start seeds (plain, encrypted) x 65536 masks (mask bytes 0-1); languages and coins rotated"); }
     out_kv_int("backgrounds", NBG);
     out_end();
     return 0;
